@@ -5,13 +5,13 @@
    back-end-free specification "execute all phases in order on descriptors nobody reads"; at exit
    every registered context has been offered every byte written to it and is closed iff its peer
    terminated.  The three outcomes are therefore equal. *)
-From MV Require Import C13.Model C13.ProofsLife C13.ProofsIso C13.ProofsRead C13.ProofsAgree C13.ProofsFix.
+From MV Require Import C13.Model C13.ProofsLife C13.ProofsIso C13.ProofsRead C13.ProofsAgree C13.ProofsFix C13.ProofsTmr.
 From Coq Require Import Permutation.
 
 Definition flat (sc : script) : bool :=
   (match s_trigs sc with [] => true | _ => false end) &&
   forallb phase_act_ok (concat (s_phases sc)) &&
-  Nat.leb (count_adds (concat (s_phases sc))) (if Nat.ltb (s_hints sc) 1 then 8 else s_hints sc).
+  Nat.leb (count_adds (concat (s_phases sc))) (if Nat.ltb (s_hints sc) 1 then 8 else s_hints sc) && negb (s_timer sc).
 
 (* the specification: all phases executed in order, nothing ever read or closed *)
 Definition spec_state (sc : script) : st := do_acts (concat (s_phases sc)) (init BSelect sc).
@@ -33,7 +33,8 @@ Record PC (c d : cst) : Prop := mkPC {
   p_cl_eof : cclosed c = true -> ceof c = true;
   p_cl_q : cclosed c = true -> cq c = 0;
   p_po_eof : cpopen c = false -> ceof c = true;
-  p_off : cregok c = false -> coff c = 0
+  p_off : cregok c = false -> coff c = 0;
+  p_rst : crst c = false       (* no connection reset in the class *)
 }.
 
 Record GC (s sg : st) : Prop := mkGC {
@@ -128,8 +129,8 @@ Proof.
     destruct (PCx y). rewrite <- p_add0.
     destruct (cadded (cx s y) || Nat.eqb y 0) eqn:CA; [apply SKIP|].
     apply Bool.orb_false_iff in CA. destruct CA as [CA Y0].
-    set (c1 := mkC (ckind (cx s y)) _ _ _ _ _ true _ _ _).
-    set (d1 := mkC (ckind (cx sg y)) _ _ _ _ _ true _ _ _).
+    set (c1 := mkC (ckind (cx s y)) _ _ _ _ _ true _ _ _ (crst (cx s y))).
+    set (d1 := mkC (ckind (cx sg y)) _ _ _ _ _ true _ _ _ (crst (cx sg y))).
     destruct (add_ctx_room y (updc y c1 s)) as [O1 S1].
     { simpl. intros Bp. specialize (Hcap Bp eq_refl). lia. }
     destruct (add_ctx_room y (updc y d1 sg)) as [O2 S2].
@@ -191,7 +192,7 @@ Proof.
     destruct (is_tcp (cx s y) && ceof (cx s y)); simpl; rewrite ?cx_edge; simpl;
       (destruct (Nat.eqb z y) eqn:E; auto; apply Nat.eqb_eq in E; subst; simpl; auto).
   - destruct (cadded (cx s y) || Nat.eqb y 0); [simpl; auto|].
-    set (c1 := mkC _ _ _ _ _ _ true _ _ _).
+    set (c1 := mkC _ _ _ _ _ _ true _ _ _ _).
     destruct (add_ctx_other y (updc y c1 s)) as (_ & _ & _ & D & _).
     destruct (add_ctx y (updc y c1 s)) as [s1 ok]. simpl in D. simpl. rewrite D. simpl.
     destruct (Nat.eqb z y) eqn:E; auto. apply Nat.eqb_eq in E. subst. rewrite Nat.eqb_refl. simpl. auto.
@@ -227,7 +228,11 @@ Proof.
   - destruct (cclosed (cx s y)); [|destruct (negb (is_pipe (cx s y)))]; simpl; unfold edge; simpl;
       repeat match goal with |- context [if ?c then _ else _] => destruct c; simpl end; repeat split; auto; lia.
   - simpl. unfold edge; simpl. repeat match goal with |- context [if ?c then _ else _] => destruct c; simpl end; repeat split; auto; lia.
-  - simpl. repeat split; auto; try lia; intros; discriminate.
+  - simpl. unfold edge; simpl. repeat match goal with |- context [if ?c then _ else _] => destruct c; simpl end;
+      repeat split; auto; try lia; intros; discriminate.
+  - destruct (can_reset (cx s y)); simpl; unfold edge; simpl;
+      repeat match goal with |- context [if ?c then _ else _] => destruct c; simpl end;
+      repeat split; auto; try lia; intros; discriminate.
 Qed.
 
 (* a whole phase, with the capacity budget K reserved for the phases still to come *)
@@ -259,7 +264,7 @@ Qed.
 Definition rd_ctx (c : cst) : cst :=
   mkC (ckind c) 0 (ceof c) (cpopen c) (csht c)
       (cflag c || (if is_pipe c then ceof c else ceof c || csht c))
-      (cadded c) (cregok c) (cclosed c) (coff c + cq c).
+      (cadded c) (cregok c) (cclosed c) (coff c + cq c) (crst c).
 
 (* the read callback = drain and flag ([rd_mid]), then the actions of the triggers it fires *)
 Definition rd_fire (x : nat) (s : st) : list trigger :=
@@ -306,7 +311,7 @@ Proof.
     + simpl. rewrite Nat.eqb_refl. rewrite FE. unfold rd_ctx. simpl. auto.
   - simpl. rewrite Nat.eqb_refl. auto.
   - simpl. rewrite Nat.eqb_refl. rewrite FE. intros CE.
-    unfold events_c, ev_in, ev_hup, rd_ctx. simpl. rewrite CE, p_sht0.
+    unfold events_c, ev_in, ev_hup, ev_err, rd_ctx. simpl. rewrite CE, p_sht0, p_rst0.
     destruct (cpopen (cx s x)) eqn:PO; [|rewrite (p_po_eof0 eq_refl) in CE; discriminate].
     destruct (ckind (cx s x)); simpl; auto.
   - simpl. rewrite Nat.eqb_refl. auto.
@@ -315,7 +320,7 @@ Qed.
 
 Lemma hup_eof : forall c d, PC c d -> ev_hup c = true -> ceof c = true.
 Proof.
-  intros c d [] H. unfold ev_hup in H. rewrite p_sht0 in H.
+  intros c d [] H. unfold ev_hup in H. rewrite p_sht0, ?p_rst0 in H.
   destruct (ckind c); auto.
   - rewrite Bool.orb_false_r in H. apply Bool.negb_true_iff in H. auto.
   - discriminate.
@@ -560,11 +565,15 @@ Proof.
     assert (IDs : idle s = true) by (simpl in ID; auto).
     destruct (phases s2) as [|p rest] eqn:P; simpl in P.
     + (* after the last phase: exit *)
-      exists E, U. split.
-      { exists sg, h. eapply GT_view; [apply G2| | | | | | | |]; simpl; auto. }
-      split; [simpl; auto|]. split; [simpl; auto|]. split; [simpl; auto|]. split; [simpl; auto|].
+      exists E, U.
+      destruct (do_act_frame AExit s2) as (F1 & F2 & F3 & F4 & _ & _).
+      split.
+      { exists sg, h. eapply GT_view; [apply G2|apply IW| | | | | | |]; simpl;
+          rewrite ?cx_edge, ?clist_edge, ?trigs_edge, ?phases_edge, ?bk_edge, ?pcap_edge, ?parr_edge; simpl; auto. }
+      split; [rewrite F4; simpl; auto|]. split; [rewrite F1; simpl; auto|]. split; [rewrite F2; simpl; auto|].
+      split; [rewrite F3; simpl; auto|].
       split; [auto|]. split; [intros C; congruence|].
-      intros _. simpl. rewrite P. auto.
+      intros _. simpl. rewrite ?cx_edge, ?clist_edge, ?phases_edge. simpl. rewrite P. auto.
     + (* the next phase: the epoch ends, the ghost becomes the canonical one *)
       pose proof (QI IDs) as Q.
       assert (Q2 : Quiet s2) by (eapply Quiet_view; [| |apply Q]; auto).
@@ -1099,13 +1108,13 @@ Qed.
 (* ------------------------------------------------------------------ the whole run, any back-end *)
 Definition iter_ok (BI : st -> Prop) (b : backend) : Prop :=
   forall E U s, GX E U s -> toexit s = false -> idle s = false -> bk s = b -> BI s ->
-  exists E' U', GX E' U' (iter (kern_o s) s) /\ BI (iter (kern_o s) s) /\
-    idle (iter (kern_o s) s) = false /\ bk (iter (kern_o s) s) = b /\
-    (toexit (iter (kern_o s) s) = true -> phases (iter (kern_o s) s) = [] /\ Quiet (iter (kern_o s) s)).
+  exists E' U', GX E' U' (iter0 (kern_o0 s) s) /\ BI (iter0 (kern_o0 s) s) /\
+    idle (iter0 (kern_o0 s) s) = false /\ bk (iter0 (kern_o0 s) s) = b /\
+    (toexit (iter0 (kern_o0 s) s) = true -> phases (iter0 (kern_o0 s) s) = [] /\ Quiet (iter0 (kern_o0 s) s)).
 
 Lemma sel_iter : iter_ok BSel BSelect.
 Proof.
-  intros E U s GXs EX ID B BS. unfold iter, kern_o.
+  intros E U s GXs EX ID B BS. unfold iter0, kern_o0.
   destruct (kern s) as [|p r] eqn:K.
   - (* idle: the harness wakes the loop up *)
     pose proof (Q_sel E U s GXs BS B K) as Q.
@@ -1142,15 +1151,17 @@ Proof.
 Qed.
 
 Lemma runk_flat : forall BI b, iter_ok BI b ->
-  forall fuel E U s s', GX E U s -> toexit s = false -> idle s = false -> bk s = b -> BI s ->
+  forall fuel E U s s', GX E U s -> toexit s = false -> idle s = false -> bk s = b -> BI s -> tmr s = false ->
   runk fuel s = (s', true) ->
   exists s1 E1 U1, s' = finish s1 /\ GX E1 U1 s1 /\ phases s1 = [] /\ Quiet s1.
 Proof.
-  intros BI b OK. induction fuel as [|f IH]; intros E U s s' GXs EX ID B BIs R; simpl in R; [discriminate|].
+  intros BI b OK. induction fuel as [|f IH]; intros E U s s' GXs EX ID B BIs TM R; simpl in R; [discriminate|].
+  destruct (iter_notimer s TM) as [IE TM'].
+  rewrite IE in R.
   destruct (OK E U s GXs EX ID B BIs) as (E' & U' & A1 & A2 & A3 & A4 & A5).
-  destruct (toexit (iter (kern_o s) s)) eqn:T.
+  destruct (toexit (iter0 (kern_o0 s) s)) eqn:T.
   - inversion R; subst s'. destruct (A5 eq_refl) as [P Q].
-    exists (iter (kern_o s) s), E', U'. auto.
+    exists (iter0 (kern_o0 s) s), E', U'. auto.
   - eapply IH; eauto.
 Qed.
 
@@ -1222,8 +1233,15 @@ Qed.
 Definition Htc (re : nat) (c : cst) : Prop :=
   has_hup_err re = true -> ceof c = true /\ (has_in re = false -> cq c = 0).
 
-Lemma events_c_bits : forall c, has_in (events_c c) = ev_in c /\ has_hup_err (events_c c) = ev_hup c.
-Proof. intros c. unfold events_c. destruct (ev_in c), (ev_hup c); simpl; auto. Qed.
+Lemma events_c_bits_gen : forall c, has_in (events_c c) = ev_in c /\ has_hup_err (events_c c) = (ev_hup c || ev_err c).
+Proof. intros c. unfold events_c. destruct (ev_in c), (ev_hup c), (ev_err c); simpl; auto. Qed.
+
+(* without a reset the hang-up / error bits are the hang-up alone *)
+Lemma events_c_bits : forall c, crst c = false -> has_in (events_c c) = ev_in c /\ has_hup_err (events_c c) = ev_hup c.
+Proof.
+  intros c R. destruct (events_c_bits_gen c) as [A B]. split; auto. rewrite B.
+  unfold ev_err. rewrite R. destruct (ckind c); rewrite Bool.orb_false_r; auto.
+Qed.
 
 Lemma ev_in_false_q : forall c, ev_in c = false -> cq c = 0.
 Proof.
@@ -1237,7 +1255,7 @@ Qed.
 
 Lemma Htc_events : forall c d, PC c d -> Htc (events_c c) c.
 Proof.
-  intros c d P H. destruct (events_c_bits c) as [A B]. rewrite B in H.
+  intros c d P H. destruct (events_c_bits c (p_rst _ _ P)) as [A B]. rewrite B in H.
   split; [eapply hup_eof; eauto|]. rewrite A. apply ev_in_false_q.
 Qed.
 
@@ -1262,7 +1280,7 @@ Proof.
     destruct (is_tcp (cx s y0) && ceof (cx s y0)); simpl; rewrite ?cx_edge; simpl;
       (destruct (Nat.eqb y y0) eqn:E; auto; apply Nat.eqb_eq in E; subst; simpl; auto).
   - destruct (cadded (cx s y0) || Nat.eqb y0 0); [simpl; auto|].
-    set (c1 := mkC _ _ _ _ _ _ true _ _ _).
+    set (c1 := mkC _ _ _ _ _ _ true _ _ _ _).
     destruct (add_ctx_other y0 (updc y0 c1 s)) as (_ & _ & _ & D & _).
     destruct (add_ctx y0 (updc y0 c1 s)) as [s1 ok]. simpl in D. simpl. rewrite D. simpl.
     destruct (Nat.eqb y y0) eqn:E; auto. apply Nat.eqb_eq in E. subst. rewrite Nat.eqb_refl. simpl. auto.
@@ -1270,7 +1288,10 @@ Proof.
     destruct (negb (is_pipe (cx s y0))); simpl; rewrite ?cx_edge; simpl;
       (destruct (Nat.eqb y y0) eqn:E; auto; apply Nat.eqb_eq in E; subst; simpl; auto).
   - simpl. rewrite cx_edge. auto.
-  - simpl. auto.
+  - simpl. rewrite cx_edge. auto.
+  - destruct (can_reset (cx s y0)); [|simpl; auto].
+    simpl. rewrite cx_edge. simpl. destruct (Nat.eqb y y0) eqn:E; auto.
+    apply Nat.eqb_eq in E. subst. simpl. auto.
 Qed.
 
 Lemma Htc_do_acts : forall l s y e, Htc e (cx s y) -> Htc e (cx (do_acts l s) y).
@@ -1477,7 +1498,7 @@ Proof. intros f l H. destruct l as [|q l]; simpl in *; [discriminate|]. inversio
 
 Lemma poll_iter : iter_ok (fun _ => True) BPoll.
 Proof.
-  intros E U s GXs EX ID B _. unfold iter, kern_o.
+  intros E U s GXs EX ID B _. unfold iter0, kern_o0.
   destruct (kern s) as [|p r] eqn:K.
   - (* idle *)
     pose proof (Q_poll E U s GXs B K) as Q.
@@ -1618,7 +1639,7 @@ Proof.
     destruct (Nat.eqb k 0) eqn:K.
     + apply Nat.eqb_eq in K. subst k. eapply EP_same; [| | |apply E]; simpl; auto.
       intros z. rewrite events_emit, (events_updc_same y); auto. simpl.
-      unfold events_c, ev_in, ev_hup. simpl. rewrite Nat.add_0_r. auto.
+      unfold events_c, ev_in, ev_hup, ev_err. simpl. rewrite Nat.add_0_r. auto.
     + eapply EP_same; [| | |eapply (EP_touch pend y s); [| | |apply E]]; simpl; auto;
         try (rewrite ?ereg_edge; reflexivity); try (intros z Hz; apply events_updc; auto).
   - (* half-close *)
@@ -1631,13 +1652,13 @@ Proof.
     + apply Bool.andb_true_iff in TC. destruct TC as [T C].
       eapply EP_same; [| | |apply E]; simpl; auto.
       intros z. rewrite events_emit, (events_updc_same y); auto.
-      unfold events_c, ev_in, ev_hup, is_tcp in *. simpl. destruct (ckind (cx s y)); try discriminate.
+      unfold events_c, ev_in, ev_hup, ev_err, is_tcp in *. simpl. destruct (ckind (cx s y)); try discriminate.
       rewrite C. auto.
     + eapply EP_same; [| | |eapply (EP_touch pend y s); [| | |apply E]]; simpl; auto;
         try (rewrite ?ereg_edge; reflexivity); try (intros z Hz; apply events_updc; auto).
   - (* add *)
     destruct (cadded (cx s y) || Nat.eqb y 0); [eapply EP_same; [| | |apply E]; auto|].
-    set (c1 := mkC _ _ _ _ _ _ true _ _ _).
+    set (c1 := mkC _ _ _ _ _ _ true _ _ _ _).
     set (s0 := updc y c1 s).
     assert (E0 : EP pend s0).
     { eapply EP_same; [| | |apply E]; auto. intros z. apply events_updc_same. auto. }
@@ -1697,7 +1718,10 @@ Proof.
   destruct (idle s1); auto.
   assert (E2 : EP pend (set_idle false s1)) by (eapply EP_same; [| | |apply E1]; auto).
   destruct (phases (set_idle false s1)) as [|p r] eqn:P; simpl in P.
-  - eapply EP_same; [| | |apply E2]; auto.
+  - unfold do_act.
+    eapply EP_same; [| | |eapply (EP_touch pend 0 (set_idle false s1)); [| | |apply E2]]; simpl; auto;
+      try (rewrite ?ereg_edge; reflexivity).
+    intros z Hz. unfold events. apply Nat.eqb_neq in Hz. rewrite Hz. auto.
   - rewrite P in PH. simpl in PH. rewrite forallb_app in PH. apply Bool.andb_true_iff in PH. destruct PH as [PH1 _].
     apply EP_do_acts; auto. eapply EP_same; [| | |apply E2]; auto.
 Qed.
@@ -2029,8 +2053,8 @@ Qed.
 
 Lemma live_events : forall c, events_c c <> 0 -> Live (events_c c).
 Proof.
-  intros c H. destruct (events_c_bits c) as [A B]. unfold Live. rewrite A, B.
-  unfold events_c in H. destruct (ev_in c), (ev_hup c); auto.
+  intros c H. destruct (events_c_bits_gen c) as [A B]. unfold Live. rewrite A, B.
+  unfold events_c in H. destruct (ev_in c), (ev_hup c), (ev_err c); auto.
 Qed.
 
 Lemma Q_epoll : forall E U s, GX E U s -> BEp s -> bk s = BEpoll -> kern s = [] -> Quiet s.
@@ -2096,7 +2120,7 @@ Qed.
 
 Lemma epoll_iter : iter_ok BEp BEpoll.
 Proof.
-  intros E U s GXs EX ID B BE. unfold iter, kern_o.
+  intros E U s GXs EX ID B BE. unfold iter0, kern_o0.
   destruct (kern s) as [|p r] eqn:K.
   - (* idle *)
     pose proof (Q_epoll E U s GXs BE B K) as Q.
@@ -2211,12 +2235,12 @@ Definition swt (sc : script) : bool :=
   forallb (fun t => tact_ok (tact t) && Nat.leb 1 (tbytes t)) (s_trigs sc) && nodupb (s_trigs sc) &&
   (noterm_b (s_trigs sc) || sorted_tb (s_trigs sc)) && tsb (s_trigs sc) &&
   forallb phase_act_ok (concat (s_phases sc)) &&
-  Nat.leb (count_adds (concat (s_phases sc))) (if Nat.ltb (s_hints sc) 1 then 8 else s_hints sc).
+  Nat.leb (count_adds (concat (s_phases sc))) (if Nat.ltb (s_hints sc) 1 then 8 else s_hints sc) && negb (s_timer sc).
 
 Definition sw (sc : script) : bool :=
   forallb (fun t => is_write (tact t) && Nat.leb 1 (tbytes t)) (s_trigs sc) && nodupb (s_trigs sc) &&
   forallb phase_act_ok (concat (s_phases sc)) &&
-  Nat.leb (count_adds (concat (s_phases sc))) (if Nat.ltb (s_hints sc) 1 then 8 else s_hints sc).
+  Nat.leb (count_adds (concat (s_phases sc))) (if Nat.ltb (s_hints sc) 1 then 8 else s_hints sc) && negb (s_timer sc).
 
 Definition spec_outcome_sw (sc : script) (x : nat) : nat * bool * bool :=
   let d := cx (spec_sw sc) x in
@@ -2257,9 +2281,11 @@ Lemma swt_parts : forall sc, swt sc = true ->
   (forall t, In t (s_trigs sc) -> tact_ok (tact t) = true /\ 1 <= tbytes t) /\ NoDup (s_trigs sc) /\
   (noterm (s_trigs sc) \/ sortedU (s_trigs sc)) /\ TS (s_trigs sc) /\
   forallb phase_act_ok (concat (s_phases sc)) = true /\
-  count_adds (concat (s_phases sc)) <= (if Nat.ltb (s_hints sc) 1 then 8 else s_hints sc).
+  count_adds (concat (s_phases sc)) <= (if Nat.ltb (s_hints sc) 1 then 8 else s_hints sc) /\
+  s_timer sc = false.
 Proof.
-  intros sc H. unfold swt in H. apply Bool.andb_true_iff in H. destruct H as [H H6].
+  intros sc H. unfold swt in H. apply Bool.andb_true_iff in H. destruct H as [H H7].
+  apply Bool.andb_true_iff in H. destruct H as [H H6].
   apply Bool.andb_true_iff in H. destruct H as [H H5]. apply Bool.andb_true_iff in H. destruct H as [H H4].
   apply Bool.andb_true_iff in H. destruct H as [H H3]. apply Bool.andb_true_iff in H. destruct H as [H1 H2].
   split.
@@ -2267,16 +2293,18 @@ Proof.
     apply Bool.andb_true_iff in K. destruct K as [K1 K2]. apply Nat.leb_le in K2. auto.
   - split; [apply nodupb_NoDup; auto|]. split.
     + apply Bool.orb_true_iff in H3. destruct H3 as [N|S]; [left; apply noterm_b_ok; auto|right; apply sorted_tb_ok; auto].
-    + split; [apply tsb_ok; auto|]. split; auto. apply Nat.leb_le. auto.
+    + split; [apply tsb_ok; auto|]. split; auto. split; [apply Nat.leb_le; auto|].
+      apply Bool.negb_true_iff. auto.
 Qed.
 
 Lemma sw_swt : forall sc, sw sc = true -> swt sc = true.
 Proof.
-  intros sc H. unfold sw in H. apply Bool.andb_true_iff in H. destruct H as [H H4].
+  intros sc H. unfold sw in H. apply Bool.andb_true_iff in H. destruct H as [H H5].
+  apply Bool.andb_true_iff in H. destruct H as [H H4].
   apply Bool.andb_true_iff in H. destruct H as [H H3]. apply Bool.andb_true_iff in H. destruct H as [H1 H2].
   assert (W : forall t, In t (s_trigs sc) -> is_write (tact t) = true /\ Nat.leb 1 (tbytes t) = true).
   { intros t Ht. pose proof (proj1 (forallb_forall _ _) H1 t Ht) as K. apply Bool.andb_true_iff in K. auto. }
-  unfold swt. rewrite H2, H3, H4.
+  unfold swt. rewrite H2, H3, H4, H5.
   assert (forallb (fun t => tact_ok (tact t) && Nat.leb 1 (tbytes t)) (s_trigs sc) = true) as ->.
   { apply forallb_forall. intros t Ht. destruct (W t Ht) as [A B]. rewrite B. destruct (tact t); try discriminate; auto. }
   assert (noterm_b (s_trigs sc) = true) as ->.
@@ -2287,9 +2315,10 @@ Qed.
 
 Lemma flat_sw : forall sc, flat sc = true -> sw sc = true.
 Proof.
-  intros sc H. unfold flat in H. apply Bool.andb_true_iff in H. destruct H as [H H3].
+  intros sc H. unfold flat in H. apply Bool.andb_true_iff in H. destruct H as [H H4].
+  apply Bool.andb_true_iff in H. destruct H as [H H3].
   apply Bool.andb_true_iff in H. destruct H as [H1 H2].
-  unfold sw. destruct (s_trigs sc); [|discriminate]. simpl. rewrite H2, H3. auto.
+  unfold sw. destruct (s_trigs sc); [|discriminate]. simpl. rewrite H2, H3, H4. auto.
 Qed.
 
 Lemma start_GX : forall b sc, swt sc = true ->
@@ -2297,7 +2326,7 @@ Lemma start_GX : forall b sc, swt sc = true ->
   toexit (start b sc) = false /\ idle (start b sc) = false /\ bk (start b sc) = b /\
   match b with BSelect => BSel (start b sc) | BPoll => True | BEpoll => BEp (start b sc) end.
 Proof.
-  intros b sc SW. destruct (swt_parts sc SW) as (W & NDU & SOK0 & TS0 & PH & CAP).
+  intros b sc SW. destruct (swt_parts sc SW) as (W & NDU & SOK0 & TS0 & PH & CAP & _).
   set (p0 := hd [] (s_phases sc)). set (rest := tl (s_phases sc)).
   assert (CC : concat (s_phases sc) = p0 ++ concat rest).
   { unfold p0, rest. destruct (s_phases sc); simpl; auto. }
@@ -2386,6 +2415,8 @@ Theorem swt_outcome : forall sc, swt sc = true -> forall b fuel s',
 Proof.
   intros sc SW b fuel s' R x. unfold runks in R.
   destruct (start_GX b sc SW) as (GX0 & EX & ID & B & BI).
+  assert (TM : tmr (start b sc) = false).
+  { rewrite tmr_start. destruct (swt_parts sc SW) as (_ & _ & _ & _ & _ & _ & T). auto. }
   assert (exists s1 E1 U1, s' = finish s1 /\ GX (spec_sw sc) E1 U1 s1 /\ phases s1 = [] /\ Quiet s1) as (s1 & E1 & U1 & -> & G1 & P1 & Q1).
   { destruct b.
     - eapply (runk_flat (spec_sw sc) BSel BSelect); eauto. apply sel_iter.
@@ -2459,7 +2490,7 @@ Definition sw_example : script :=
          [AAdd 3; AWrite 2 7; AHclose 1; AWrite 1 4];
          [APclose 2; AAdd 4; AWrite 4 6; AWrite 3 1]]
         [mkT 1 3 (AWrite 2 4); mkT 2 4 (AWrite 3 2); mkT 1 5 (AWrite 3 8); mkT 3 12 (AWrite 3 1);
-         mkT 3 15 (AWrite 4 2); mkT 4 8 (AWrite 1 3); mkT 2 50 (AWrite 1 1)].
+         mkT 3 15 (AWrite 4 2); mkT 4 8 (AWrite 1 3); mkT 2 50 (AWrite 1 1)] false [].
 
 Example agree_sw_nonvacuous :
   sw sw_example = true /\ in_S sw_example = true /\
@@ -2479,7 +2510,7 @@ Definition swt_example : script :=
          [AAdd 4; AWrite 1 4; AWrite 3 2];
          [AWrite 4 6; AWrite 1 1]]
         [mkT 1 2 (AWrite 2 4); mkT 2 3 (AWrite 4 2); mkT 1 6 (APclose 2);
-         mkT 4 8 AWake; mkT 1 9 (AWrite 2 8); mkT 3 10 (AHclose 3)].
+         mkT 4 8 AWake; mkT 1 9 (AWrite 2 8); mkT 3 10 (AHclose 3)] false [].
 
 Example agree_swt_nonvacuous :
   swt swt_example = true /\ sw swt_example = false /\
@@ -2494,7 +2525,7 @@ Definition flat_example : script :=
   mkScr 4 [(1, KPipe); (2, KUnix); (3, KTcp); (4, KPipe)]
         [[AAdd 2; AAdd 1; AWrite 1 5; AWrite 3 9; AWake];
          [AAdd 3; AWrite 2 7; AHclose 1; AWrite 1 4];
-         [APclose 2; AAdd 4; AWrite 4 6; AWrite 3 1]] [].
+         [APclose 2; AAdd 4; AWrite 4 6; AWrite 3 1]] [] false [].
 
 Example agree_flat_nonvacuous :
   flat flat_example = true /\ in_S flat_example = true /\
